@@ -33,13 +33,17 @@ MANIFEST = {
              "differential check of every datagram, its virtual send time, destination, the randrange arguments and what "
              "a real SsdpListener reports; the same judge runs on the implementation's observations."),
     "note": ("Trusted: Lean kernel + standard axioms; the virtual-time loop, fake sockets, randrange stand-in; aiohttp "
-             "header parsing inside the real listener is exercised, not modelled; ASCII text only; the "
-             "ALWAYS_REPLY_WITH_ROOT_DEVICE option and custom header options are outside the model; real sockets/"
-             "multicast are not covered."),
+             "header parsing inside the real listener is exercised, not modelled; ASCII text only; the always-root "
+             "responder option is a parameter of model, judge and theorems (both settings generated); the *_OPTION_HEADERS "
+             "option constants exist in server.py but are never read - the harness passes them and the byte-level check "
+             "confirms they change nothing; the listener model is the merged C03/C04 model; real sockets/multicast are "
+             "not covered."),
     "technique": "Lean 4 proof (for all trees/targets/histories) + generated tables + model/implementation correspondence",
 }
 RULE = ("one case = one generated device class tree (0..3 embedded devices, nested to depth 3, 0..3 services each, type "
-        "versions 1..4, duplicate types among siblings, mixed letter case) + an operation sequence of M-SEARCH deliveries "
+        "versions 1..4, duplicate types among siblings, the same type at several versions, the same service type in several "
+        "devices, shared UDNs, device types equal to service types, mixed letter case; responder option always-root on/off; "
+        "custom-header options on/off) + an operation sequence of M-SEARCH deliveries "
         "(ssdp:all, rootdevice, every UDN, every device/service type at versions 0..5, foreign and malformed targets, "
         "random letter case; MX absent / 0..10 / negative / non-numeric; jitter choice min / max / random; delivered as a "
         "datagram through SsdpProtocol or directly to _on_data), clock advances, announcer start and stop; every emitted "
@@ -48,10 +52,14 @@ RULE = ("one case = one generated device class tree (0..3 embedded devices, nest
 EXHAUSTIVE = {"quick": False, "thorough": False}
 ASSUMPTIONS = [
     "all text is ASCII (Python str.lower on non-ASCII is outside the model)",
-    "device trees are well-formed in the sense of Upnp.C13.wfTree (uuid: UDNs without '::', types of the form base:version, "
-    "device-type, service-type and UDN bases pairwise different); the driver checks this on every generated tree",
-    "responder/announcer options are the defaults (no ALWAYS_REPLY_WITH_ROOT_DEVICE, no extra headers)",
-    "the server's base URI is http(s), not loopback / 169.254 (the listener rejects those by design)",
+    "device trees are in the domain Upnp.C13.wfTree: UDNs are uuid: names (any case) without '::' and not ending in ':', "
+    "every device/service type is base:canonical-decimal-version; nothing else - devices may share UDNs or types, the same "
+    "service type may occur in several devices, a device type may equal a service type (all generated); the driver checks "
+    "the domain on every tree and reports a tree outside it as a failure",
+    "siblings with the same type string collapse in UpnpDevice's dicts (services / embedded_devices keyed by type); the model "
+    "transcribes that (build) and the judge works on the instantiated tree",
+    "the server's base URI is http(s), not 127.0.0.1 / [::1] / 169.254 (the listener rejects those by design); IPv4, IPv6 "
+    "and named hosts are generated",
     "requester and multicast target are IPv4",
 ]
 TRUSTED = [
@@ -182,6 +190,37 @@ def hear(loop, data: bytes, kind: str) -> str:
     return f"heard T {tok_str(udn)} {tok_str(str(dst))} {tok_str(loc or '')} {codes.get(source, 7)}"
 
 
+def tree_tags(device) -> List[str]:
+    devs = device.all_devices
+    svcs = device.all_services
+    out = [f"tree:devices={min(len(devs), 6)}{'+' if len(devs) > 6 else ''}",
+           f"tree:depth={max(depth_of(d) for d in devs)}"]
+    dtypes = [d.device_type.lower() for d in devs]
+    stypes = [s.service_type.lower() for s in svcs]
+    base = lambda t: t.rpartition(":")[0]  # noqa: E731
+    if len(set(dtypes)) < len(dtypes):
+        out.append("tree:same-device-type-twice")
+    if len({base(t) for t in dtypes}) < len(set(dtypes)):
+        out.append("tree:device-type-at-two-versions")
+    if len(set(stypes)) < len(stypes):
+        out.append("tree:same-service-type-twice")
+    if len({base(t) for t in stypes}) < len(set(stypes)):
+        out.append("tree:service-type-at-two-versions")
+    if {base(t) for t in dtypes} & {base(t) for t in stypes}:
+        out.append("tree:device-type-equals-service-type")
+    if len({d.udn.lower() for d in devs}) < len(devs):
+        out.append("tree:shared-udn")
+    return out
+
+
+def depth_of(d) -> int:
+    n = 0
+    while d.parent_device is not None:
+        d = d.parent_device
+        n += 1
+    return n
+
+
 def st_class(st: Optional[str], device, answered: bool) -> str:
     if st is None:
         return "absent"
@@ -232,6 +271,8 @@ def run_recipe(ctx: Ctx, recipe: Dict[str, Any], cid: str) -> Case:
     url = recipe.get("url", "/device.xml")
     boot = recipe.get("boot", 1)
     config = recipe.get("config", 1)
+    always_root = bool(recipe.get("always_root", False))
+    custom = recipe.get("custom_headers")  # the *_OPTION_HEADERS options (defined in server.py, never read)
     tags = set()
     lines: List[str] = []
     state: Dict[str, Any] = {}
@@ -249,14 +290,27 @@ def run_recipe(ctx: Ctx, recipe: Dict[str, Any], cid: str) -> Case:
             return hi - 1 if rr_sel[0] == "max" else lo + int(rr_sel[0]) % (hi - lo)
 
         server.randrange = fake_randrange
+        responder_options: Optional[Dict[str, Any]] = None
+        announcer_options: Optional[Dict[str, Any]] = None
+        if always_root or custom:
+            responder_options = {}
+            if always_root:
+                responder_options[server.SSDP_SEARCH_RESPONDER_OPTION_ALWAYS_REPLY_WITH_ROOT_DEVICE] = True
+                tags.add("option:always-root")
+            if custom:
+                responder_options[server.SSDP_SEARCH_RESPONDER_OPTION_HEADERS] = dict(custom)
+                announcer_options = {server.SSDP_ADVERTISEMENT_ANNOUNCER_OPTION_HEADERS: dict(custom)}
+                tags.add("option:custom-headers")
         try:
             root_cls = make_classes(tree, url)
             device = root_cls(server.NopRequester(), base, boot, config)
             lines.append("cfg " + " ".join([tok_str(base), tok_str(url), tok_str(server.HEADER_SERVER),
                                             tok_str("Thu, 01 Jan 1970 00:00:00 GMT"), tok_str(str(boot)),
-                                            tok_str(str(config)), tok_str(f"{TARGET[0]}:{TARGET[1]}"), addr_tok(TARGET)]))
+                                            tok_str(str(config)), tok_str(f"{TARGET[0]}:{TARGET[1]}"), addr_tok(TARGET),
+                                            "1" if always_root else "0"]))
             lines.extend(cls_lines(tree))
             lines.extend(dev_lines(device))
+            tags.update(tree_tags(device))
 
             ms = lambda: int(round(loop.time() * 1000))  # noqa: E731
             sent: List[Tuple[int, Any, bytes]] = []
@@ -266,7 +320,8 @@ def run_recipe(ctx: Ctx, recipe: Dict[str, Any], cid: str) -> Case:
                     sent.append((ms(), addr, bytes(data)))
                     return len(data)
 
-            responder = server.SsdpSearchResponder(device, source=(SERVER_ADDR[0], 0), target=TARGET)
+            responder = server.SsdpSearchResponder(device, source=(SERVER_ADDR[0], 0), target=TARGET,
+                                                   options=responder_options)
             responder._response_socket = RespSock()  # type: ignore[assignment]
             rproto = SsdpProtocol(loop, on_connect=responder._on_connect, on_data=responder._on_data)
             rproto.connection_made(FakeTransport(SERVER_ADDR))
@@ -328,7 +383,8 @@ def run_recipe(ctx: Ctx, recipe: Dict[str, Any], cid: str) -> Case:
                 elif name == "astart":
                     if "start" in ann:
                         continue
-                    announcer = server.SsdpAdvertisementAnnouncer(device, source=(SERVER_ADDR[0], 0), target=TARGET, loop=loop)
+                    announcer = server.SsdpAdvertisementAnnouncer(device, source=(SERVER_ADDR[0], 0), target=TARGET,
+                                                                  options=announcer_options, loop=loop)
                     atr = FakeTransport(SERVER_ADDR)
                     alog: List[Tuple[int, Any, bytes]] = []
                     atr.sendto = lambda data, a=None: alog.append((ms(), a, bytes(data)))  # type: ignore[method-assign]
@@ -433,10 +489,13 @@ def rand_tree(rng: random.Random, depth: int = 0, used=None) -> Dict[str, Any]:
     if used and rng.random() < 0.05:
         udn = rng.choice(sorted(used))  # two devices sharing a UDN
     used.add(udn)
+    kind = rng.choice(["device", "device", "device", "device", "device", "device", "device", "thing"])
+    skind = lambda: "service" if kind == "device" or rng.random() < 0.5 else "thing"  # noqa: E731
     node = {
         "udn": udn,
-        "type": f"urn:{rng.choice(DOMAINS)}:device:{rng.choice(DEV_NAMES)}:{rng.randrange(1, 5)}",
-        "svcs": [f"urn:{rng.choice(DOMAINS)}:service:{rng.choice(SVC_NAMES)}:{rng.randrange(1, 5)}"
+        # "thing" types: vendor names without the device/service marker, so a device type can equal a service type
+        "type": f"urn:{rng.choice(DOMAINS)}:{kind}:{rng.choice(DEV_NAMES)}:{rng.randrange(1, 5)}",
+        "svcs": [f"urn:{rng.choice(DOMAINS)}:{skind()}:{rng.choice(SVC_NAMES + (DEV_NAMES if kind == 'thing' else []))}:{rng.randrange(1, 5)}"
                  for _ in range(rng.randrange(0, 4))],
         "kids": [],
     }
@@ -531,7 +590,9 @@ def tree_cases(rng: random.Random, tree: Dict[str, Any], prefix: str, per_case: 
                         "base": rng.choice(["http://192.168.1.5:8000", "http://10.0.0.1", "https://server.example:8443",
                                             "http://[2001:db8::1]:80"]),
                         "url": rng.choice(["/device.xml", "/", "/desc/root.xml"]),
-                        "boot": rng.choice([1, 1, 7, 12345]), "config": rng.choice([1, 1, 2])})
+                        "boot": rng.choice([1, 1, 7, 12345]), "config": rng.choice([1, 1, 2]),
+                        "always_root": rng.random() < 0.15,
+                        "custom_headers": {"X-CUSTOM": "1", "SERVER": "other/1.0"} if rng.random() < 0.1 else None})
     return recipes
 
 
@@ -547,7 +608,7 @@ def generate(ctx: Ctx) -> List[Case]:
     cases: List[Case] = []
     for i, rec in enumerate(CORPUS):
         cases.append(run_recipe(ctx, rec, f"corpus{i}"))
-    n_trees = 5000 if ctx.thorough else 250
+    n_trees = 3000 if ctx.thorough else 150
     recipes: List[Dict[str, Any]] = []
     for ti in range(n_trees):
         tree = rand_tree(ctx.rng)
@@ -588,6 +649,25 @@ CORPUS: List[Dict[str, Any]] = [
     {"tree": _t("uuid:r", "urn:schemas-upnp-org:device:Root:1",
                 ["urn:schemas-upnp-org:service:A:3", "urn:schemas-upnp-org:service:A:3"], [_EMB, _t("uuid:emb2", _EMB["type"])]),
      "ops": [["search", {"st": "ssdp:all", "mx": "3", "sel": 17}], ["astart"], ["advance", 100000]]},
+]
+
+
+_THING = _t("uuid:thing", "urn:acme-com:thing:Light:2", ["urn:acme-com:thing:Light:2", "urn:acme-com:thing:Light:1"],
+            [_t("uuid:thing-2", "urn:acme-com:thing:Light:1", ["urn:acme-com:thing:Light:2"]),
+             _t("UUID:THING", "urn:acme-com:thing:Light:3")])
+CORPUS += [
+    # a device type that is also a service type; two devices sharing a UDN (letter case apart); the same service type
+    # in two devices; one type at three versions: every match must be answered, each once
+    {"tree": _THING, "ops": [["search", {"st": "urn:acme-com:thing:Light:1"}], ["search", {"st": "urn:acme-com:thing:Light:2"}],
+                             ["search", {"st": "urn:acme-com:thing:light:3", "mx": "2", "sel": 5}],
+                             ["search", {"st": "uuid:thing"}], ["search", {"st": "ssdp:all"}], ["astart"], ["advance", 400000],
+                             ["astop"]]},
+    # responder option always-root: one extra root message on every search, also on foreign targets
+    {"tree": _ROOT, "always_root": True,
+     "ops": [["search", {"st": "ssdp:all"}], ["search", {"st": "upnp:rootdevice", "mx": "1", "sel": 0}],
+             ["search", {"st": "urn:schemas-upnp-org:service:B:1"}], ["search", {"st": "nothing"}], ["search", {"st": None}]]},
+    # the *_OPTION_HEADERS options are defined but not read by server.py: packets are unchanged
+    {"tree": _ROOT, "custom_headers": {"X-CUSTOM": "1"}, "ops": [["search", {"st": "ssdp:all"}], ["astart"], ["advance", 31000], ["astop"]]},
 ]
 
 
